@@ -117,6 +117,8 @@ class Host:
         self.sio.eio.generate_id = drv.generate_id
         # never start a thread / task: remember what was asked for
         self.sio.start_background_task = lambda target, *a, **k: self.bg.append(getattr(target, '__name__', '?'))
+        if getattr(drv, 'app', None):
+            install_app(drv, self, drv.app)
 
     def socket(self, drv, eio):
         host = self
@@ -139,12 +141,108 @@ class Host:
         return s
 
 
+# ---------------------------------------------------------------- application handlers
+# app = {'style': {ns: 'fn' | 'cls'}, 'handlers': {ns: {'connect': [act], 'disconnect': [act], <event>: [act]}}}
+# (the same application on every host).  'fn': function handlers registered with sio.on(..., namespace=ns) that
+# call the SERVER API with namespace=ns; 'cls': one class-based Namespace / AsyncNamespace whose on_* methods call
+# the NAMESPACE API (self.enter_room(sid, room), ...).  An action is
+#   ('enter', who, room) ('leave', who, room) ('rooms', who) ('emit', ev, data, room, skip_self)
+#   ('close_room', room) ('disconnect', who)
+# who: None = the handler's own client, otherwise a sid; room: the marker SELF = the room named like the handler's
+# own sid, otherwise the room value itself.  Every action is recorded as a Result effect (its value or exception);
+# handlers return None.  Effects: ('Handler', host, ns, name, sid, arg)  ('Result', host, ('ok', v) | ('exc', name))
+SELF = ('self',)
+
+
+def _api_call(api, nskw, sid, a):
+    """The API call of one action: returns its result (an awaitable on the asyncio classes)."""
+    kind = a[0]
+
+    def who(w):
+        return sid if w is None else w
+
+    def room(r):
+        return sid if r == SELF else copy.deepcopy(r)
+    if kind == 'enter':
+        return api.enter_room(who(a[1]), room(a[2]), **nskw)
+    if kind == 'leave':
+        return api.leave_room(who(a[1]), room(a[2]), **nskw)
+    if kind == 'rooms':
+        return api.rooms(who(a[1]), **nskw)
+    if kind == 'emit':
+        return api.emit(a[1], copy.deepcopy(a[2]), room=room(a[3]), skip_sid=sid if a[4] else None, **nskw)
+    if kind == 'close_room':
+        return api.close_room(room(a[1]), **nskw)
+    if kind == 'disconnect':
+        return api.disconnect(who(a[1]), **nskw)
+    raise AssertionError('unknown action %r' % (a,))
+
+
+def _plain_result(v):
+    return list(v) if isinstance(v, (list, tuple)) else v
+
+
+def _handler(drv, host, ns, name, acts, api_of, nskw, is_method):
+    """A function (sync mode) or coroutine function (asyncio mode) running `acts`."""
+    def enter(args):
+        if is_method:
+            args = args[1:]
+        sid = args[0]
+        if name == 'connect':
+            arg = args[1].get('verif') if isinstance(args[1], dict) else None
+        else:
+            arg = args[1] if len(args) > 1 else None
+        drv.eff(('Handler', host.k, ns, name, sid, copy.deepcopy(arg)))
+        return sid
+
+    if drv.mode == 'sync':
+        def f(*args):
+            sid = enter(args)
+            api = api_of(args)
+            for a in acts:
+                try:
+                    r = _api_call(api, nskw, sid, a)
+                    drv.eff(('Result', host.k, ('ok', _plain_result(r))))
+                except AssertionError:
+                    raise
+                except Exception as e:
+                    drv.eff(('Result', host.k, ('exc', coqio.exn_name(e))))
+    else:
+        async def f(*args):
+            sid = enter(args)
+            api = api_of(args)
+            for a in acts:
+                try:
+                    r = await aw(_api_call(api, nskw, sid, a))
+                    drv.eff(('Result', host.k, ('ok', _plain_result(r))))
+                except AssertionError:
+                    raise
+                except Exception as e:
+                    drv.eff(('Result', host.k, ('exc', coqio.exn_name(e))))
+    return f
+
+
+def install_app(drv, host, app):
+    sio = host.sio
+    for ns, tbl in app['handlers'].items():
+        if app['style'].get(ns, 'fn') == 'fn':
+            for name, acts in tbl.items():
+                sio.on(name, _handler(drv, host, ns, name, acts, lambda args: sio, {'namespace': ns}, False),
+                       namespace=ns)
+        else:
+            base = socketio.Namespace if drv.mode == 'sync' else socketio.AsyncNamespace
+            attrs = {'on_' + name: _handler(drv, host, ns, name, acts, lambda args: args[0], {}, True)
+                     for name, acts in tbl.items()}
+            sio.register_namespace(type('ScriptedApp', (base,), attrs)(ns))
+
+
 class ClusterDriver:
     """wos: list of write_only flags, one per host.  plain=True: ONE server with the default Manager."""
 
-    def __init__(self, wos, mode='sync', plain=False):
+    def __init__(self, wos, mode='sync', plain=False, app=None):
         self.mode = mode
         self.plain = plain
+        self.app = app              # application handlers (see install_app), None = no handlers
         self.trace = []
         self.current = 0
         self.chan = []              # pickled messages
@@ -245,6 +343,21 @@ class ClusterDriver:
                 await aw(h.sio.close_room(o[3], namespace=o[2]))
             elif kind == 'disconnect':
                 await aw(h.sio.disconnect(o[2], namespace=o[3]))
+            elif kind == 'cevent':          # the client sends EVENT [ev, arg] (no ack requested)
+                _, _, eio, ns, ev, arg = o
+                if eio in h.sockets:
+                    await self._receive(h, eio, sio_packet.Packet(sio_packet.EVENT, data=[ev, copy.deepcopy(arg)],
+                                                                  namespace=ns).encode())
+            elif kind == 'cdisc':           # the client sends DISCONNECT for one namespace
+                _, _, eio, ns = o
+                if eio in h.sockets:
+                    await self._receive(h, eio, sio_packet.Packet(sio_packet.DISCONNECT, namespace=ns).encode())
+            elif kind == 'lose':            # the transport is lost: engine.io reports the disconnect
+                _, _, eio, reason = o
+                s = h.sockets.pop(eio, None)
+                if s is not None:
+                    await aw(s.close(wait=False, abort=True, reason=reason))
+                    h.sio.eio.sockets.pop(eio, None)
             else:
                 raise AssertionError('unknown op %r' % (o,))
         except AssertionError:
@@ -314,11 +427,11 @@ class ClusterDriver:
         return {'rooms': rooms, 'pending': pending, 'callbacks': cbs, 'cur': h.cur, 'bg': list(h.bg)}
 
 
-def run_cluster(wos, ops, mode='sync', immediate=True):
+def run_cluster(wos, ops, mode='sync', immediate=True, app=None):
     """Returns (steps, finals): steps = [(op, effects, pre)] where pre = [(k, flat membership)] of
     the hosts the property checker needs at that step; finals = per-host dumps."""
     async def main():
-        d = ClusterDriver(wos, mode)
+        d = ClusterDriver(wos, mode, app=app)
         steps = []
         for o in ops:
             if o[0] == 'consume':
@@ -335,9 +448,9 @@ def run_cluster(wos, ops, mode='sync', immediate=True):
     return asyncio.run(main())
 
 
-def run_single(ops, mode='sync'):
+def run_single(ops, mode='sync', app=None):
     async def main():
-        d = ClusterDriver([False], mode, plain=True)
+        d = ClusterDriver([False], mode, plain=True, app=app)
         steps = []
         for o in ops:
             steps.append((o, list(await d.op(o))))
@@ -464,3 +577,52 @@ def c_dump(d):
         return '(%s, DApp 999999%%N)' % cN(i)
     cbs = clist(['(%s, %s, %s)' % (cstr(key), copt(nxt, cN), clist([ent(x) for x in ents])) for key, nxt, ents in d['callbacks']])
     return '(mkDump %s %s %s %s)' % (rooms, pending, cbs, cnat(d['cur']))
+
+
+# ---------------------------------------------------------------- printers (Cluster/Handlers.v vocabulary)
+def c_sel(r):
+    return 'None' if r == SELF else '(Some %s)' % pv(r)
+
+
+def c_act(a):
+    k = a[0]
+    if k == 'enter':
+        return '(AEnter %s %s)' % (copt(a[1], cstr), c_sel(a[2]))
+    if k == 'leave':
+        return '(ALeave %s %s)' % (copt(a[1], cstr), c_sel(a[2]))
+    if k == 'rooms':
+        return '(ARooms %s)' % copt(a[1], cstr)
+    if k == 'emit':
+        return '(AEmit %s %s %s %s)' % (pv(a[1]), pv(a[2]), c_sel(a[3]), cbool(a[4]))
+    if k == 'close_room':
+        return '(AClose %s)' % c_sel(a[1])
+    if k == 'disconnect':
+        return '(ADisc %s)' % copt(a[1], cstr)
+    raise ValueError(a)
+
+
+def c_app(app):
+    return clist(['(%s, %s)' % (cstr(ns), clist(['(%s, %s)' % (cstr(name), clist([c_act(a) for a in acts]))
+                                                 for name, acts in tbl.items()]))
+                  for ns, tbl in app['handlers'].items()])
+
+
+def c_xop(o):
+    k = o[0]
+    if k == 'cevent':
+        return '(XEvent %s %s %s %s %s)' % (cnat(o[1]), cstr(o[2]), c_ns(o[3]), cstr(o[4]), pv(o[5]))
+    if k == 'cdisc':
+        return '(XClientDisc %s %s %s)' % (cnat(o[1]), cstr(o[2]), c_ns(o[3]))
+    if k == 'lose':
+        return '(XLose %s %s %s)' % (cnat(o[1]), cstr(o[2]), pv(o[3]))
+    return '(XBase %s)' % c_op(o)
+
+
+def c_heff(e, host_ids):
+    k = e[0]
+    if k == 'Handler':
+        return '(HHandler %s %s %s %s %s)' % (cnat(e[1]), cstr(e[2]), cstr(e[3]), cstr(e[4]), pv(e[5]))
+    if k == 'Result':
+        tag, v = e[2]
+        return '(HResult %s (%s))' % (cnat(e[1]), 'Ok %s' % pv(v) if tag == 'ok' else 'Err %s' % v)
+    return '(HE %s)' % c_eff(e, host_ids)
